@@ -616,6 +616,17 @@ func rStep(fs rFS, t *rTree, op int, allowRootMutation bool) rResult {
 		r.err = hackpadfs.Chmod(fs, p, mode|rOwner(0700))
 		r.errno, r.epath = t.chmod(p, mode|rOwner(0700))
 	case 8:
+		if verifChoice("chtimes.zero", 2) == 1 {
+			// os.Chtimes: a zero modification time leaves it unchanged; the access time is given, so the name is
+			// still looked up (with BOTH times zero Linux answers success without looking at the name at all:
+			// measured with oraclefuzz, left out)
+			verifTag("chtimes", "zero-mtime")
+			r.err = hackpadfs.Chtimes(fs, p, time.Unix(5, 0), time.Time{})
+			if e := t.walk(p); e != 0 {
+				r.errno, r.epath = e, p
+			}
+			break
+		}
 		sec := verifInt64("sec")
 		verifAssume(sec >= 1)
 		verifAssume(sec < 1<<31)
